@@ -32,67 +32,170 @@ def find_assign(f, name):
     return None
 
 
+def _jtf(node):
+    for n in ast.walk(node):
+        if isinstance(n, ast.BinOp) and isinstance(n.op, ast.MatMult) and isinstance(n.left, ast.Attribute) and n.left.attr == "T" \
+                and isinstance(n.left.value, ast.Name) and isinstance(n.right, ast.Name):
+            return n.left.value.id, n.right.id
+    return None
+
+
+def _grad_names(f, prog=None):
+    """names (J, f) from the statement  gradient = J.T @ f  -- in the method itself, or in a helper it calls with (J, f) as arguments"""
+    got = _jtf(f.node)
+    if got or prog is None:
+        return got
+    for c in ast.walk(f.node):
+        if not isinstance(c, ast.Call):
+            continue
+        g = None
+        if isinstance(c.func, ast.Name):
+            r = f.module.resolve_name(c.func.id)
+            g = r if r is not None and hasattr(r, "node") and isinstance(r.node, ast.FunctionDef) else None
+            params = [a.arg for a in g.node.args.args] if g else []
+        elif isinstance(c.func, ast.Attribute) and isinstance(c.func.value, ast.Name) and c.func.value.id == "self" and f.cls is not None:
+            g = f.cls.methods.get(c.func.attr)
+            params = [a.arg for a in g.node.args.args][1:] if g else []
+        if g is None:
+            continue
+        inner = _jtf(g.node)
+        if inner and inner[0] in params and inner[1] in params:
+            actual = {}
+            for p_, a_ in zip(params, c.args):
+                actual[p_] = a_
+            for k_ in c.keywords:
+                actual[k_.arg] = k_.value
+            A, B = actual.get(inner[0]), actual.get(inner[1])
+            if isinstance(A, ast.Name) and isinstance(B, ast.Name):
+                return A.id, B.id
+    return None
+
+
+def _field_names(f):
+    """names of the two locals holding the reference field components: X = norm([h[i], h[j]]) and Z = h[k]"""
+    bx = bz = None
+    for n in ast.walk(f.node):
+        if isinstance(n, ast.Assign) and isinstance(n.targets[0], ast.Name) and isinstance(n.value, ast.Call) and ast.unparse(n.value.func).endswith("norm") \
+                and n.value.args and isinstance(n.value.args[0], (ast.List, ast.Tuple)) and len(n.value.args[0].elts) == 2:
+            bx = n.targets[0].id
+            hname = ast.unparse(n.value.args[0].elts[0].value) if isinstance(n.value.args[0].elts[0], ast.Subscript) else None
+            for m in ast.walk(f.node):
+                if isinstance(m, ast.Assign) and isinstance(m.targets[0], ast.Name) and isinstance(m.value, ast.Subscript) and ast.unparse(m.value.value) == hname \
+                        and m.targets[0].id != bx:
+                    bz = m.targets[0].id
+    return bx, bz
+
+
 def madgwick(chk, prog):
     for meth, marg in (("updateIMU", False), ("updateMARG", True)):
         f = prog.func(F + "madgwick.py::Madgwick." + meth)
         chk.touch(f)
         kw = dict(module=f.module.rel, function=f.qname, line=f.node.lineno)
-        fs, Js = find_assign(f, "f"), find_assign(f, "J")
-        if fs is None or Js is None:
-            chk.error("Madgwick.%s: objective f / Jacobian J assignments not found" % meth)
+        names = _grad_names(f, prog)
+        if names is None:
+            chk.error("Madgwick.%s: the gradient statement `J.T @ f` was not found" % meth)
             continue
+        Jn, fn_ = names
         qs = sym_vec("jq", 4, "wxyz")
-        a, m = sym_vec("ja", 3), sym_vec("jm", 3)
-        bx, bz = P.sym("bx"), P.sym("bz")
+        a, m, w = sym_vec("ja", 3), sym_vec("jm", 3), sym_vec("jw", 3)
+        bx, bz, dt = P.sym("bx"), P.sym("bz"), P.sym("dt")
+        known = [qs, a, m]
 
-        def extract(qv=qs):
-            it = Interp(prog)
-            env = Env(f.module, f)
-            env.vars.update({"qw": qv[0], "qx": qv[1], "qy": qv[2], "qz": qv[3], "a": a, "m": m, "bx": bx, "bz": bz})
-            return to_obj(it.eval(fs.value, env)), to_obj(it.eval(Js.value, env))
+        def run_free():
+            """interpret the method with free symbols; norms of the inputs are 1 (they are unit by hypothesis), b treated as constants"""
+            def norm1(it, args, kwargs):
+                from sa.symeval import unwrap, vec_norm, arr_same
+                x = to_obj(unwrap(args[0]))
+                for k in known:
+                    if getattr(x, "shape", None) == k.shape and arr_same(x, k):
+                        return P.ONE
+                return vec_norm(x, axis=kwargs.get("axis"))
+            ov = {}
+            if marg:
+                nx, nz = _field_names(f)
+                if nx is None or nz is None:
+                    raise AssertionError("field component locals not found")
+                ov = {(f.ref, nx): bx, (f.ref, nz): bz}
+            it = Interp(prog, oracle=lambda c, i: True if c.op in (">",) else None, intercepts={"np.linalg.norm": norm1}, config={"override_locals": ov})
+            obj = it.make_obj(F + "madgwick.py::Madgwick", Dt=dt, gain=P.sym("gain"))
+            args = [qs.copy(), w, a] + ([m] if marg else [])
+            it.run(f, args, {"dt": dt}, self_obj=obj)
+            env = it.last_env.vars
+            return to_obj(env[fn_]), to_obj(env[Jn])
 
         def jac():
-            fv, J = extract()
+            fv, J = run_free()
             outs = []
             for i in range(len(fv)):
                 for j, s_ in enumerate(("jqw", "jqx", "jqy", "jqz")):
                     outs.append(eq(J[i, j], fv[i].deriv(s_), "J[%d,%d]" % (i, j)))
             return all_of(*outs)
-        chk.ob("FEEDBACK.jacobian", f.ref, "J[i][j] == d f_i / d q_j for the extracted objective f", jac, construct="Jacobian of the objective", **kw)
+        chk.ob("FEEDBACK.jacobian", f.ref, "J[i][j] == d f_i / d q_j for the objective f the method evaluates", jac, construct="Jacobian of the objective", **kw)
 
         def equilibrium():
             q = unit_syms("cq")
             E = E_ref(q)
-            it = Interp(prog)
-            env = Env(f.module, f)
             bu = unit_vec("jb", 2)
+            P.declare_positive(bu[0])
             ref = np.array([bu[0], P.ZERO, bu[1]], dtype=object)
-            env.vars.update({"qw": q[0], "qx": q[1], "qy": q[2], "qz": q[3], "a": E.T @ np.array([P.ZERO, P.ZERO, P.ONE], dtype=object),
-                             "m": E.T @ ref, "bx": bu[0], "bz": bu[1]})
-            fv = to_obj(it.eval(fs.value, env))
+            it = Interp(prog, oracle=lambda c, i: None)
+            obj = it.make_obj(F + "madgwick.py::Madgwick", Dt=dt, gain=P.sym("gain"))
+            args = [q.copy(), w, E.T @ np.array([P.ZERO, P.ZERO, P.ONE], dtype=object)] + ([E.T @ ref] if marg else [])
+            it.run(f, args, {"dt": dt}, self_obj=obj)
+            fv = to_obj(it.last_env.vars[fn_])
             return eq(fv, np.array([P.ZERO] * len(fv), dtype=object), "f at the truth")
         chk.ob("EQUILIBRIUM", f.ref, "objective f == 0 for a = E(q)^T e3%s" % (", m = E(q)^T (bx, 0, bz)" if marg else ""), equilibrium, construct="objective vanishes at the truth", **kw)
-        # step structure
-        facts = {}
+        def step():
+            """q_new == (q + (q (x) [0,w] / 2 - gain * J^T f / |J^T f|) dt) / |.|  with the two norms kept as opaque positive symbols"""
+            from sa.symeval import unwrap, vec_norm, arr_same
+            seen = []
 
-        class G(Facts):
-            def s_AugAssign(self2, s, st):
-                if isinstance(s.target, ast.Name) and s.target.id == "qDot":
-                    facts["op"] = type(s.op).__name__
-                    facts["rhs"] = self2.vn(s.value, st)
-                    facts["grad"] = st.get("v:gradient")
-                return super().s_AugAssign(s, st)
-        G(f, prog).analyse()
-        ok = facts.get("op") == "Sub" and "S:gain" in (facts.get("rhs") or "") and (facts.get("grad") or "").startswith("Div(MatMult(T(")
-        if ok:
-            chk.record("FEEDBACK.step", f.ref, "qDot -= gain * (J^T f)/|J^T f|  (descent direction)")
-        else:
-            chk.record("FEEDBACK.step", f.ref, "qDot -= gain * normalised(J^T f)", verdict="VIOLATION", detail=str(facts))
-            chk.finding("FEEDBACK.step", f.module.rel, f.qname, "gradient step: qDot %s= %s" % ({"Sub": "-", "Add": "+"}.get(facts.get("op"), "?"), facts.get("rhs")),
-                        "the correction is not `qDot -= gain * J^T f / |J^T f|`: ascent instead of descent makes the true attitude unstable", line=f.node.lineno)
+            def norm_sym(it, args, kwargs):
+                x = to_obj(unwrap(args[0]))
+                for k in known:
+                    if getattr(x, "shape", None) == k.shape and arr_same(x, k):
+                        return P.ONE
+                for y, sy in seen:
+                    if getattr(x, "shape", None) == y.shape and arr_same(x, y):
+                        return sy
+                sy = P.sym("nrm%d" % len(seen))
+                P.declare_positive(sy)
+                seen.append((x.copy() if hasattr(x, "copy") else x, sy))
+                return sy
+            ov = {}
+            if marg:
+                nx, nz = _field_names(f)
+                if nx is None or nz is None:
+                    return (None, "field component locals not found")
+                ov = {(f.ref, nx): bx, (f.ref, nz): bz}
+            it = Interp(prog, oracle=lambda c, i: True if c.op in (">",) else None, intercepts={"np.linalg.norm": norm_sym}, config={"override_locals": ov})
+            obj = it.make_obj(F + "madgwick.py::Madgwick", Dt=dt, gain=P.sym("gain"))
+            args = [qs.copy(), w, a] + ([m] if marg else [])
+            out = to_obj(it.run(f, args, {"dt": dt}, self_obj=obj))
+            env = it.last_env.vars
+            fv, J = to_obj(env[fn_]), to_obj(env[Jn])
+            g = J.T @ fv
+            ng = nq = None
+            for y, sy in seen:
+                if y.shape == g.shape and arr_same(y, g):
+                    ng = sy
+            if ng is None:
+                return (False, "the gradient J^T f is never normalised (no norm of it is taken)", None)
+            qdot = hamilton_ref(qs, np.concatenate([[P.ZERO], w])) / 2 - P.sym("gain") * g / ng
+            exp = qs + qdot * dt
+            for y, sy in seen:
+                if y.shape == exp.shape and arr_same(y, exp):
+                    nq = sy
+            if nq is None:
+                return (False, "q + qDot*dt with qDot = q(x)[0,w]/2 - gain*J^T f/|J^T f| is not what the method normalises and returns", None)
+            return eq(out, exp / nq, "q_new")
+        chk.ob("FEEDBACK.step", f.ref, "q_new = normalised(q + (q (x) [0,w]/2 - gain * J^T f/|J^T f|) dt): descent along the normalised gradient", step,
+               construct="gradient step", **kw)
 
 
 def mahony(chk, prog):
+    """all Mahony clauses are read off observable effects (returned quaternion, carried bias), not off local names"""
+    from sa.lib import normalized
     for meth, marg in (("updateIMU", False), ("updateMARG", True)):
         f = prog.func(F + "mahony.py::Mahony." + meth)
         chk.touch(f)
@@ -100,96 +203,62 @@ def mahony(chk, prog):
         w = sym_vec("mw", 3)
         kP, kI, dt = P.sym("kP"), P.sym("kI"), P.sym("dt")
 
-        def run(q, acc, mag):
+        def run(q, acc, mag, b0):
             it = Interp(prog, oracle=lambda c, i: True if c.op == ">" else None)
-            obj = it.make_obj(F + "mahony.py::Mahony", Dt=dt, k_P=kP, k_I=kI, b=np.array([P.ZERO] * 3, dtype=object))
+            obj = it.make_obj(F + "mahony.py::Mahony", Dt=dt, k_P=kP, k_I=kI, b=b0.copy())
             args = [q, w, acc] + ([mag] if marg else [])
-            it.run(f, args, {"dt": dt}, self_obj=obj)
-            return it.last_env.vars, obj
+            out = it.run(f, args, {"dt": dt}, self_obj=obj)
+            return to_obj(out), to_obj(obj.attrs["b"])
 
         def equilibrium():
             q = unit_syms("cq")
             E = E_ref(q)
             bu = unit_vec("mb", 2)
             P.declare_positive(bu[0])
+            b0 = sym_vec("mb0", 3)
             acc = E.T @ np.array([P.ZERO, P.ZERO, P.ONE], dtype=object)
             mag = E.T @ np.array([P.ZERO, bu[0], bu[1]], dtype=object)
-            env, obj = run(q, acc, mag)
-            om = to_obj(env["omega_mes"])
-            return all_of(eq(om, np.array([P.ZERO] * 3, dtype=object), "omega_mes at the truth"), eq(obj.attrs["b"], np.array([P.ZERO] * 3, dtype=object), "bias unchanged at the truth"))
-        chk.ob("EQUILIBRIUM", f.ref, "omega_mes == 0 and the bias is unchanged for consistent data", equilibrium, construct="correction vanishes at the truth", **kw)
+            out, b_new = run(q, acc, mag, b0)
+            pure = normalized(q + hamilton_ref(q, np.concatenate([[P.ZERO], w - b0])) * dt / 2)
+            return all_of(eq(b_new, b0, "bias unchanged at the truth"), eq(out, pure, "no attitude correction at the truth"))
+        chk.ob("EQUILIBRIUM", f.ref, "for consistent data the bias is unchanged and the step is the pure (bias-compensated) gyro step", equilibrium, construct="correction vanishes at the truth", **kw)
         if not marg:
             def lyapunov():
-                qf = sym_vec("lq", 4, "wxyz")                 # free symbols: the formal gradient is taken before restricting to the sphere
+                qf = sym_vec("lq", 4, "wxyz")
                 a = unit_vec("la")
-                # v_a(q) as the code computes it: third row of the extracted matrix
                 it = Interp(prog)
                 from sa.lib import quat_obj, QUAT
                 R = to_obj(it.run(prog.func(QUAT + "::Quaternion.to_DCM"), [], self_obj=quat_obj(it, qf)))
                 v_a = R.T @ np.array([P.ZERO, P.ZERO, P.ONE], dtype=object)
-                om_free = it.np.cross(a, v_a)
-                qdot = hamilton_ref(qf, np.concatenate([[P.ZERO], kP * om_free])) / 2
-                Vdot = P.ZERO
-                for k, s_ in enumerate(("lqw", "lqx", "lqy", "lqz")):
-                    for i in range(3):
-                        Vdot = Vdot - a[i] * v_a[i].deriv(s_) * qdot[k]
-                # restrict to the unit sphere
                 qu = unit_syms("lu")
                 sub = {"lqw": qu[0], "lqx": qu[1], "lqy": qu[2], "lqz": qu[3]}
-                Vdot_u = Vdot.subs(sub)
-                om_u = np.array([x.subs(sub) for x in om_free], dtype=object)
-                want = -kP * (om_u @ om_u)
-                # and the code's omega_mes is this cross product
-                env, _ = run(qu, a, None)
-                code_om = to_obj(env["omega_mes"])
-                return all_of(eq(code_om, om_u, "omega_mes == a x v_a"), eq(Vdot_u, want, "dV/dt"))
-            chk.ob("FEEDBACK.lyapunov", f.ref, "dV/dt == -k_P |a x v_a|^2 along qdot = 1/2 q (x) (0, k_P omega_mes), V = 1 - a.v_a(q)", lyapunov, construct="Lyapunov descent", **kw)
-        # PI structure by AVN: new bias == b - k_I*omega_mes*dt ; result == normalise(q + dt/2 q (x) (0, gyr - b_new + k_P*omega_mes))
-        def pi_law():
-            qu = unit_syms("pq")
-            a_ = unit_vec("pa")
-            b0 = sym_vec("pb", 3)
-            it = Interp(prog, oracle=lambda c, i: True if c.op == ">" else None)
-            obj = it.make_obj(F + "mahony.py::Mahony", Dt=dt, k_P=kP, k_I=kI, b=b0.copy())
-            if marg:
-                bu = unit_vec("pm")
-                out = it.run(f, [qu, w, a_, bu], {"dt": dt}, self_obj=obj)
-            else:
-                out = it.run(f, [qu, w, a_], {"dt": dt}, self_obj=obj)
-            om = to_obj(it.last_env.vars["omega_mes"])
-            b_new = to_obj(obj.attrs["b"])
-            rate = w - b_new + kP * om
-            from sa.lib import normalized
-            want = normalized(qu + hamilton_ref(qu, np.concatenate([[P.ZERO], rate])) * dt / 2)
-            return all_of(eq(b_new, b0 - kI * om * dt, "bias update"), eq(out, want, "corrected step"))
-        if not marg:
-            chk.ob("FEEDBACK.pi", f.ref, "b += -k_I omega_mes dt and the step integrates gyr - b + k_P omega_mes", pi_law, construct="PI correction", **kw)
+                # the correction the code applies, read off the bias it integrates: b_new = b - k_I * omega_mes * dt
+                b0 = np.array([P.ZERO] * 3, dtype=object)
+                out, b_new = run(qu, a, None, b0)
+                om_code = -(b_new - b0) / (kI * dt)
+                # Lyapunov derivative along qdot = 1/2 q (x) (0, k_P omega_mes) with that omega_mes
+                om_free_sub = om_code
+                Vdot = P.ZERO
+                qdot = hamilton_ref(qu, np.concatenate([[P.ZERO], kP * om_code])) / 2
+                for k, s_ in enumerate(("lqw", "lqx", "lqy", "lqz")):
+                    for i in range(3):
+                        Vdot = Vdot - a[i] * v_a[i].deriv(s_).subs(sub) * qdot[k]
+                v_a_u = np.array([x.subs(sub) for x in v_a], dtype=object)
+                cr = it.np.cross(a, v_a_u)
+                step = normalized(qu + hamilton_ref(qu, np.concatenate([[P.ZERO], w - b_new + kP * om_code])) * dt / 2)
+                return all_of(eq(Vdot, -kP * (cr @ cr), "dV/dt"), eq(out, step, "step integrates gyr - b + k_P omega_mes"))
+            chk.ob("FEEDBACK.lyapunov", f.ref, "with omega_mes read off the bias integrator (b_new = b - k_I omega_mes dt): dV/dt == -k_P |a x v_a|^2 for V = 1 - a.v_a(q), "
+                   "and the step integrates gyr - b_new + k_P omega_mes", lyapunov, construct="Lyapunov descent / PI structure", **kw)
         else:
-            # MARG: same structure, checked through value numbers of the bias update and of Omega
-            info = {}
-
-            class G(Facts):
-                def s_AugAssign(self2, s, st):
-                    if isinstance(s.target, ast.Attribute) and s.target.attr == "b":
-                        info["b_op"] = type(s.op).__name__
-                        info["b_rhs"] = self2.vn(s.value, st)
-                        info["om"] = st.get("v:omega_mes")
-                    return super().s_AugAssign(s, st)
-
-                def s_Assign(self2, s, st):
-                    out = super().s_Assign(s, st)
-                    if isinstance(s.targets[0], ast.Name) and s.targets[0].id == "Omega" and "S:k_P" in (st.get("v:Omega") or ""):
-                        info["Omega"] = st.get("v:Omega")
-                    return out
-            G(f, prog).analyse()
-            om = info.get("om") or "?"
-            ok = info.get("b_op") == "Add" and info.get("b_rhs") is not None and "neg(S:k_I)" in info["b_rhs"] and om in info["b_rhs"] \
-                and info.get("Omega") is not None and ("Mult(%s,S:k_P)" % om in info["Omega"] or "Mult(S:k_P,%s)" % om in info["Omega"]) and "Sub(" in info["Omega"]
-            if ok:
-                chk.record("FEEDBACK.pi", f.ref, "b += (-k_I omega_mes) dt; Omega = gyr - b + k_P omega_mes (value numbers)")
-            else:
-                chk.record("FEEDBACK.pi", f.ref, "PI correction has the documented signs", verdict="VIOLATION", detail=str(info)[:300])
-                chk.finding("FEEDBACK.pi", f.module.rel, f.qname, "PI correction terms", "the bias integrator / proportional term no longer value-number to b += -k_I*omega_mes*dt and Omega = gyr - b + k_P*omega_mes", line=f.node.lineno)
+            def pi_marg():
+                qu = unit_syms("pq")
+                a_, m_ = unit_vec("pa"), unit_vec("pm")
+                b0 = sym_vec("pb", 3)
+                out, b_new = run(qu, a_, m_, b0)
+                om = -(b_new - b0) / (kI * dt)
+                step = normalized(qu + hamilton_ref(qu, np.concatenate([[P.ZERO], w - b_new + kP * om])) * dt / 2)
+                return eq(out, step, "step integrates gyr - b + k_P omega_mes with the omega_mes of the bias integrator")
+            chk.ob("FEEDBACK.pi", f.ref, "the proportional term uses the same omega_mes as the bias integrator, with gain k_P and the documented signs", pi_marg, construct="PI correction", **kw)
 
 
 def ekf(chk, prog):
@@ -226,50 +295,69 @@ def ekf(chk, prog):
         return eq(y, np.concatenate([E.T @ aref, E.T @ mref]), "h(q)")
     chk.ob("EQUILIBRIUM", fh.ref, "h(q) == [E(q)^T a_ref; E(q)^T m_ref] (so the innovation vanishes for consistent data)", model, module=fu.module.rel, function="EKF.h",
            construct="measurement model", line=fh.node.lineno)
-    # update structure by value numbers (captured when each local is assigned)
-    info = {}
+    # the correction step against the textbook EKF, with the four model functions and the matrix inverse replaced by
+    # fresh symbols (so the comparison is independent of local names and statement order)
+    def kalman():
+        from sa.symeval import unit_vec as uvec, unwrap, arr_same, vec_norm
+        q = unit_syms("kq")
+        gyr, acc = sym_vec("kg", 3), uvec("ka")
+        dt = P.sym("dt")
+        qt, yv, Hm = sym_vec("kqt", 4), sym_vec("ky", 3), sym_mat("kH", 3, 4)
+        Sinv = sym_mat("kSi", 3, 3)
+        Nsym = P.sym("kNorm")
+        skew = prog.func("ahrs/common/mathfuncs.py::skew")
+        sk = to_obj(Interp(prog).run(skew, [q[1:]]))
+        W = np.vstack([[-q[1], -q[2], -q[3]], q[0] * I(3) + sk]) * dt / 2
+        outs = []
+        for stage in ("state", "covariance"):
+            # stage "state": full symbolic F, P, g_noise (checks P_t, S and the corrected state);
+            # stage "covariance": F = I, g_noise = 0 so that P_t = P and (I - K H) P_t stays small
+            Fm = sym_mat("kF", 4, 4) if stage == "state" else I(4)
+            Pm = sym_mat("kP", 4, 4)
+            noises = [P.sym("ng") if stage == "state" else P.ZERO, P.sym("na"), P.sym("nm")]
+            calls, captured = {}, {}
 
-    class G(Facts):
-        def s_Assign(self2, s, st):
-            out = super().s_Assign(s, st)
-            if isinstance(s.targets[0], ast.Name) and s.targets[0].id in ("K", "S", "v", "q", "y", "P_t", "H", "z", "q_t"):
-                nm = s.targets[0].id
-                info.setdefault(nm, []).append(st.get("v:" + nm))
-                snap = {k[2:]: v_ for k, v_ in st.items() if k.startswith("v:") and k[2:] in ("K", "S", "v", "y", "P_t", "H", "z", "q_t")}
-                snap["R"] = st.get("s:R", "S:R")
-                info.setdefault("@" + nm, []).append(snap)
-            return out
-    G(fu, prog).analyse()
+            def rec(name, value):
+                def h_(it, a_, k_):
+                    calls[name] = (a_, k_)
+                    return value.copy()
+                return h_
 
-    def add(a_, b_):
-        l, r = sorted((a_, b_))
-        return "Add(%s,%s)" % (l, r)
-    last = lambda n: (info.get(n) or [None])[-1]
-    at = lambda n: (info.get("@" + n) or [{}])[-1]          # operand value numbers at the time `n` was assigned
-    problems = []
-    y, v, S_, K = last("y"), last("v"), last("S"), last("K")
-    if not (y and at("y").get("q_t") and y.startswith("g:self.h(%s" % at("y")["q_t"])):
-        problems.append("y is not self.h(q_t)")
-    if not (v and v == "Sub(%s,%s)" % (at("v").get("z"), at("v").get("y"))):
-        problems.append("v is not z - y")
-    sS = at("S")
-    if not (S_ and S_ == add("MatMult(MatMult(%s,%s),T(%s))" % (sS.get("H"), sS.get("P_t"), sS.get("H")), sS.get("R"))):
-        problems.append("S is not H P_t H^T + R")
-    sK = at("K")
-    if not (K and K == "MatMult(MatMult(%s,T(%s)),np.linalg.inv(%s))" % (sK.get("P_t"), sK.get("H"), sK.get("S"))):
-        problems.append("K is not P_t H^T S^-1")
-    ok_q = False
-    for qv, snap in zip(info.get("q") or [], info.get("@q") or []):
-        if qv == add(snap.get("q_t"), "MatMult(%s,%s)" % (snap.get("K"), snap.get("v"))):
-            ok_q = True
-    if not ok_q:
-        problems.append("q is not q_t + K v")
-    if not problems:
-        chk.record("FEEDBACK.kalman", fu.ref, "y = h(q_t); v = z - y; S = H P_t H^T + R; K = P_t H^T S^-1; q = q_t + K v")
-    else:
-        chk.record("FEEDBACK.kalman", fu.ref, "Kalman correction structure", verdict="VIOLATION", detail="; ".join(problems))
-        chk.finding("FEEDBACK.kalman", fu.module.rel, "EKF.update", "Kalman correction: " + "; ".join(problems),
-                    "the correction no longer has the form v = z - h(q_t), S = H P_t H^T + R, K = P_t H^T S^-1, q = q_t + K v (%s)" % "; ".join(problems), line=fu.node.lineno)
+            def inv_(it, a_, k_):
+                captured["S"] = to_obj(a_[0])
+                return Sinv.copy()
+
+            def norm_(it, a_, k_):
+                x = to_obj(unwrap(a_[0]))
+                for known in (q, acc):
+                    if getattr(x, "shape", None) == known.shape and arr_same(x, known):
+                        return P.ONE
+                return Nsym          # the final normalisation: an opaque positive scale
+            E = F + "ekf.py::EKF."
+            it = Interp(prog, oracle=lambda c, i: True if c.op == "isclose" else None,
+                        intercepts={E + "f": rec("f", qt), E + "dfdq": rec("dfdq", Fm), E + "h": rec("h", yv), E + "dhdq": rec("dhdq", Hm),
+                                    "np.linalg.inv": inv_, "np.linalg.norm": norm_})
+            obj = it.make_obj(F + "ekf.py::EKF", Dt=dt, P=Pm.copy(), noises=noises, g_noise=noises[0], a_noise=noises[1], m_noise=noises[2], mag=None,
+                              a_ref=sym_vec("kar", 3), m_ref=sym_vec("kmr", 3), R=None)
+            out = to_obj(it.run(fu, [q.copy(), gyr, acc], {"dt": dt}, self_obj=obj))
+            if not all(k in calls for k in ("f", "dfdq", "h", "dhdq")) or "S" not in captured:
+                return (None, "update() does not call f, dfdq, h, dhdq and np.linalg.inv")
+            Pt = Fm @ Pm @ Fm.T + noises[0] * (W @ W.T)
+            R = np.empty((3, 3), dtype=object)
+            R.fill(P.ZERO)
+            for i_ in range(3):
+                R[i_, i_] = noises[1]
+            S = Hm @ Pt @ Hm.T + R
+            K = Pt @ Hm.T @ Sinv
+            first = lambda c_: to_obj(c_[0][1] if len(c_[0]) > 1 else c_[0][0])
+            if stage == "state":
+                outs += [eq(first(calls["h"]), qt, "h is evaluated at the predicted state"), eq(first(calls["dhdq"]), qt, "dhdq is evaluated at the predicted state"),
+                         eq(captured["S"], S, "innovation covariance S"), eq(out, (qt + K @ (acc - yv)) / Nsym, "corrected state")]
+            else:
+                outs += [eq(obj.attrs["P"], (I(4) - K @ Hm) @ Pt, "updated covariance")]
+        return all_of(*outs)
+    chk.ob("FEEDBACK.kalman", fu.ref, "with f, dfdq, h, dhdq and the inverse as fresh symbols: S == H P_t H^T + R, q == normalise(q_t + P_t H^T S^-1 (z - h(q_t))), "
+           "P == (I - K H) P_t, P_t == F P F^T + g_noise W W^T", kalman, module=fu.module.rel, function="EKF.update", construct="Kalman correction", line=fu.node.lineno)
 
 
 def blends(chk, prog):
